@@ -498,7 +498,7 @@ theorem cmp_timestamp_leap (op : CmpOp) (l r : Expr) (d s f d' s' f' : Int)
 
 /-- FLAG (kernel-checked witness): 2016-12-31 23:59:60.5 (leap representation: second 86399, 1.5·10^9 ns) is
 smaller than 2017-01-01 00:00:00.2 in the order, although its linear nanosecond count `tsTotal` is larger.
-(Arithmetic on such values is outside the model: `tsAdd`/subtraction answer `oracleMissing`.) -/
+(Arithmetic on such values mirrors chrono exactly: `tsShift`, `tsDiff`; theorems in `Props/C03Func.lean` section A′.) -/
 theorem leap_second_order_flag :
     Value.cmp (.timestamp 736329 86399 1500000000) (.timestamp 736330 0 200000000) = .lt ∧
     compare (tsTotal 736329 86399 1500000000) (tsTotal 736330 0 200000000) = .gt ∧
